@@ -41,6 +41,9 @@
 //!          (19 rmode which local) a real `<Suspense/>` (which 0) / `<Transition/>` (1) streamed in
 //!                               order (rmode 1) / out of order (2); local 1: its children read a
 //!                               LocalResource (the chunk is sent incomplete); logs (0 id) per id taken
+//!          (20 idsrc text idsrc text) write_async of a future which, when the stream first polls it,
+//!                               lets ANOTHER THREAD call write_async (second id / text) while that
+//!                               poll_next is still running; the thread is joined after the poll
 //!          (16) -> (16 b): was the waker handed to the latest poll of the stream woken since?
 //!          (17) take_errors() -> (17 ((boundary id message) ..))
 //!          (18) await_deferred() -> (18 0) none | (18 1) pending | (18 2) ready
@@ -108,6 +111,42 @@ impl Future for GateFuture {
     type Output = String;
     fn poll(self: Pin<&mut Self>, cx: &mut Context<'_>) -> Poll<String> {
         let mut g = self.0 .0.lock().unwrap();
+        match &g.value {
+            Some(v) => Poll::Ready(v.clone()),
+            None => {
+                g.wakers.push(cx.waker().clone());
+                Poll::Pending
+            }
+        }
+    }
+}
+
+/// cmd 20: a data future that, on its first poll, has another thread register more data with
+/// the same shared context while the stream's poll_next is still in progress
+pub struct CrossFuture {
+    gate: Gate,
+    fired: bool,
+    sc: Arc<dyn SharedContext + Send + Sync>,
+    id2: usize,
+    gate2: Gate,
+    joins: Arc<Mutex<Vec<std::thread::JoinHandle<()>>>>,
+}
+impl Future for CrossFuture {
+    type Output = String;
+    fn poll(mut self: Pin<&mut Self>, cx: &mut Context<'_>) -> Poll<String> {
+        if !self.fired {
+            self.fired = true;
+            let sc = Arc::clone(&self.sc);
+            let id2 = self.id2;
+            let g2 = self.gate2.clone();
+            let h = std::thread::spawn(move || {
+                sc.write_async(SerializedDataId::new(id2), Box::pin(GateFuture(g2)));
+            });
+            self.joins.lock().unwrap().push(h);
+            // give the other thread time to reach write_async while this poll is running
+            std::thread::sleep(std::time::Duration::from_millis(30));
+        }
+        let mut g = self.gate.0.lock().unwrap();
         match &g.value {
             Some(v) => Poll::Ready(v.clone()),
             None => {
@@ -729,6 +768,7 @@ struct Session {
     last_waker: Option<Arc<FlagWaker>>,
     log: Vec<Sexp>,
     keep: Vec<Kept>,
+    joins: Arc<Mutex<Vec<std::thread::JoinHandle<()>>>>,
 }
 
 /// a resource command, prepared: what to log, and how to create it under the current owner
@@ -764,7 +804,13 @@ impl Session {
         self.last_waker = Some(Arc::clone(&flag));
         let waker = Waker::from(flag);
         let mut cx = Context::from_waker(&waker);
-        match stream.as_mut().poll_next(&mut cx) {
+        let polled = stream.as_mut().poll_next(&mut cx);
+        // cmd 20: a registration made from another thread during this poll is complete now
+        let hs: Vec<_> = std::mem::take(&mut *self.joins.lock().unwrap());
+        for h in hs {
+            h.join().expect("the registering thread panicked");
+        }
+        match polled {
             Poll::Ready(Some(chunk)) => self.log.push(Lst(vec![Num(8), Num(0), cps(&chunk)])),
             Poll::Pending => self.log.push(Lst(vec![Num(8), Num(1)])),
             Poll::Ready(None) => {
@@ -990,6 +1036,21 @@ impl Session {
                 self.sc
                     .write_async(SerializedDataId::new(id), Box::pin(GateFuture(g)));
             }
+            20 => {
+                let id = self.idsrc(c.at(1));
+                let g = self.new_gate(text(c.at(2)));
+                let id2 = self.idsrc(c.at(3));
+                let g2 = self.new_gate(text(c.at(4)));
+                let fut = CrossFuture {
+                    gate: g,
+                    fired: false,
+                    sc: Arc::clone(&self.sc),
+                    id2,
+                    gate2: g2,
+                    joins: Arc::clone(&self.joins),
+                };
+                self.sc.write_async(SerializedDataId::new(id), Box::pin(fut));
+            }
             3 => {
                 let b = self.idsrc(c.at(1));
                 let e = self.idsrc(c.at(2));
@@ -1148,6 +1209,7 @@ fn session(c: &Sexp) -> Sexp {
         last_waker: None,
         log: vec![],
         keep: vec![],
+        joins: Arc::new(Mutex::new(vec![])),
     };
     for cmd in c.at(3).list() {
         s.cmd(cmd);
